@@ -116,7 +116,7 @@ SIM = {
     },
     "C04": {
         "props": ["C04"],
-        "extra": ["early_result", "sp_conversion"],
+        "extra": ["early_result", "sp_conversion", "bucket_corners"],
         "designs": simcore_designs(["Inv_C04_Conserved", "Inv_C04_CompleteIff"], ["Prop_C04_MatchedMonotone"])
         + simrun_designs(["Inv_C04_Conserved", "Inv_C04_CompleteIff"], ["Prop_C04_MatchedMonotone"]),
         "profiles": LIFECYCLE_PROFILES + [{"p_partial_cancel": 0.8, "p_big_reduction": 0.5, "p_removal": 0.12, "p_cancel": 0.5}],
@@ -139,7 +139,7 @@ SIM = {
             {"module": "MC_SimMatch", "constants": MATCH_PLACE_Q, "invariants": C05_INV, "must_reach": ["Reach_FokFilled", "Reach_Resting"]},
             {"module": "MC_SimMatch", "constants": MATCH_PLACE_T, "invariants": C05_INV, "tier": "thorough"},
         ] + simrun_designs(["Inv_C05_FokNeverRests", "Inv_C04_Conserved"]),
-        "extra": ["place_grid", "package_voided"],
+        "extra": ["place_grid", "package_voided", "bucket_corners"],
         "profiles": MATCH_PROFILES,
         "n_quick": 210, "n_thorough": 6000,
         "rule": "design: every book (<=2 levels/side over 3 prices x 3 sizes) x every limit order flavour; real code: seeded random books/orders through the real stack, each placement's fragments judged against the book the placement executed against",
